@@ -7,6 +7,7 @@ from .. import kernel as K
 from .. import monitor as M
 from .. import core, gen
 from ..desc import lift, lower, same_set, _match_sets
+from ..desc import lift as _lift_unused
 from ..lib import load
 from . import common as C
 from .c06 import build_polyhedron
@@ -36,6 +37,7 @@ def required_cells(tier):
     req["polyhedron"] = 300 if q else 6000
     req["polyhedron:exhaustive-orientations"] = 100
     req["fed-back:PG"] = 30 if q else 600
+    req["polyhedron:face-object-reused-in-the-neighbour"] = 50 if q else 1500
     req["fed-back:PH"] = 15 if q else 300
     for fam in ("tetrahedron", "hexahedron", "pyramid", "prism"):
         req["body:" + fam] = 20
@@ -62,7 +64,7 @@ def cases(rng, budget, widx, nworkers, tier):
                     if rng.random() < 0.3:
                         c_["hv"] = [rng.randint(-6, 6) for _ in range(3)]
                     yield c_
-        elif r < 0.8:
+        elif r < 0.7:
             d = gen.rand_polyhedron(rng, small=rng.random() < 0.4)
             nf = len(d[2])
             if nf > 10:
@@ -77,6 +79,15 @@ def cases(rng, budget, widx, nworkers, tier):
                     fo = list(range(nf))
                     rng.shuffle(fo)
                     yield {"k": "PH", "d": d, "forder": fo, "flips": rng.getrandbits(nf), "rots": [rng.randrange(6) for _ in range(nf)]}
+        elif r < 0.86:
+            # two prisms stacked on a common face: the upper one is built with the face OBJECT taken from the lower one
+            base = gen.rand_polygon(rng, 3, 6, 3)
+            n = K.polygon_normal(base[1])
+            h1, h2 = gen.rdir(rng, 2), None
+            if K.dot(h1, n) == 0:
+                continue
+            h2 = K.mul(h1, rng.choice((F(1, 2), 1, 2)))
+            yield {"k": "STACK", "base": base, "h1": h1, "h2": h2, "ss": rng.getrandbits(30)}
         else:
             ka, kb = rng.choice((("PG", "PG"), ("PG", "PH"), ("PH", "PH"), ("PH", "PH"), ("PL", "PH")))
             (a, b), label = gen.gen_pair(rng, ka, kb, small=True)
@@ -205,6 +216,39 @@ def judge(case):
             mu.fail("PH:ctor-raises-" + M.classify_exc(exc), "ConvexPolyhedron(valid closed faces) raised %s: %s" % (type(exc).__name__, exc))
             return mu.result()
         _check_polyhedron(G, mu, ph, d, "PH")
+        return mu.result()
+    if k == "STACK":
+        mu.cell("polyhedron:face-object-reused-in-the-neighbour")
+        base, h1, h2 = case["base"], case["h1"], case["h2"]
+        lowd = K.hull3d(list(base[1]) + [K.add(v, h1) for v in base[1]])
+        mid = [K.add(v, h1) for v in base[1]]
+        upd = K.hull3d(mid + [K.add(v, h2) for v in mid])
+        if lowd is None or upd is None or not gen.ok_coords(upd, 64, 40):
+            return core.not_admitted("degenerate-stack")
+        r = random.Random(case["ss"])
+        low = lift(lowd, r)
+        shared = None
+        midset = set(mid)
+        for f in low.convex_polygons:
+            if {tuple(F(c) for c in (p.x, p.y, p.z)) for p in f.points} == midset:
+                shared = f
+        if shared is None:
+            return core.not_admitted("shared-face-not-found")
+        faces = []
+        for f in upd[2]:
+            if set(f) == midset:
+                faces.append(shared)                      # the object owned by the lower prism
+            else:
+                faces.append(G.ConvexPolygon(tuple(G.Point(*[float(c) for c in v]) for v in f)))
+        r.shuffle(faces)
+        ph, exc, _ = M.call(lambda fs: G.ConvexPolyhedron(tuple(fs)), faces, pure=False)
+        if exc is not None:
+            mu.fail("STACK:ctor-raises-" + M.classify_exc(exc), "a closed prism built with a face object taken from the neighbouring prism raised %s: %s" % (type(exc).__name__, exc))
+        else:
+            _check_polyhedron(G, mu, ph, upd, "STACK")
+            bad = M.invariants(low)
+            if bad:
+                mu.fail("STACK:neighbour-damaged", "the polyhedron the face was taken from is no longer valid: " + bad[0])
         return mu.result()
     # fed back library outputs
     a, b = case["a"], case["b"]
